@@ -278,6 +278,80 @@ def loadKernel (v : View) (name : String) : Outcome :=
           | _ => .fatal "multiple"
         else loadNamed v.sections text td syms name
 
+/-! ## symbol selection as a total function with an explicit error enum
+
+`loadNamed` above answers with `Outcome`; the part of it that picks the kernel symbol and
+cuts its bytes out of `.text` is restated here with the Go run-time error it can raise
+(`loadNamed_via_select` in `MgpuProofs/C13Select.lean` shows it is the same computation). -/
+
+/-- why the selection yields no bytes -/
+inductive SelErr where
+  /-- no symbol passes the kernel filter and carries the name: `log.Fatalf("kernel '%s' not found …")` -/
+  | notFound
+  /-- `textSectionData[offset : offset+size]`: "slice bounds out of range [:hi] with capacity cap" -/
+  | hiPastCap
+  /-- same expression: "slice bounds out of range [lo:hi]" (lo > hi after uint64 wrap-around) -/
+  | loPastHi
+  deriving DecidableEq, Repr
+
+inductive Sel where
+  | ok (s : Symbol) (bytes : Bytes)
+  | err (e : SelErr)
+  deriving DecidableEq, Repr
+
+/-- the first symbol, in table order, that passes the kernel filter and is named `k` -/
+def firstKernelSym (secs : List Section) (syms : List Symbol) (k : String) : Option Symbol :=
+  (syms.filter (isKernelSym secs)).find? (·.name == k)
+
+/-- the `for _, symbol := range kernelSymbols` loop up to `kernelData := …` (Go checks
+`hi ≤ cap` before `lo ≤ hi`) -/
+def selectKernel (secs : List Section) (textAddr : Nat) (td : Bytes) (syms : List Symbol) (k : String) : Sel :=
+  match firstKernelSym secs syms k with
+  | none => .err .notFound
+  | some s =>
+    let off := wrapSub s.value textAddr
+    let hi := (off + s.size) % U64
+    if hi > td.length then .err .hiPastCap
+    else if off > hi then .err .loPastHi
+    else .ok s ((td.drop off).take (hi - off))
+
+/-- the symbol's range lies inside the section's loaded bytes (plain arithmetic, no wrap) -/
+def symInside (textAddr tdLen : Nat) (s : Symbol) : Bool :=
+  decide (textAddr ≤ s.value ∧ s.value + s.size ≤ textAddr + tdLen)
+
+/-- decidable well-formedness for a lookup of `k`: the first kernel symbol named `k`, if
+there is one, lies inside `.text` -/
+def selWF (secs : List Section) (textAddr : Nat) (td : Bytes) (syms : List Symbol) (k : String) : Bool :=
+  match firstKernelSym secs syms k with
+  | none => true
+  | some s => symInside textAddr td.length s
+
+/-! ## sessions: the loader keeps nothing between calls -/
+
+structure Req where
+  view : View
+  name : String
+
+/-- a run of the loader: one answer per request, in order.  There is no state to thread:
+the loader functions of hsaco.go touch no package-level variable (regenerated audit
+`Gen.Hsaco.loaderGlobals`, theorem `loader_has_no_state`). -/
+def session (reqs : List Req) : List Outcome := reqs.map (fun r => loadKernel r.view r.name)
+
+/-! ## the accessor methods of `KernelCodeObjectMeta` (hsaco.go, bottom) -/
+
+def workItemVgprCount (m : Meta) : Nat := extractBits m.rsrc1 0 5
+def wavefrontSgprCount (m : Meta) : Nat := extractBits m.rsrc1 6 9
+def priority (m : Meta) : Nat := extractBits m.rsrc1 10 11
+def enPrivSegWaveByteOffset (m : Meta) : Bool := extractBits m.rsrc2 0 0 != 0
+def userSgprCount (m : Meta) : Nat := extractBits m.rsrc2 1 5
+def enWorkGroupIDX (m : Meta) : Bool := extractBits m.rsrc2 7 7 != 0
+def enWorkGroupIDY (m : Meta) : Bool := extractBits m.rsrc2 8 8 != 0
+def enWorkGroupIDZ (m : Meta) : Bool := extractBits m.rsrc2 9 9 != 0
+def enWorkGroupInfo (m : Meta) : Bool := extractBits m.rsrc2 10 10 != 0
+def enVgprWorkItemID (m : Meta) : Nat := extractBits m.rsrc2 11 12
+def enExceptionAddressWatch (m : Meta) : Bool := extractBits m.rsrc2 13 13 != 0
+def enExceptionMemoryViolation (m : Meta) : Bool := extractBits m.rsrc2 14 14 != 0
+
 /-! ## spec-side layout writers (used by the round-trip theorems and by nothing else) -/
 
 def le16 (x : Nat) : Bytes := [UInt8.ofNat (x % 256), UInt8.ofNat (x / 256 % 256)]
@@ -362,6 +436,31 @@ def outcomeStr : Outcome → String
     "ok v=" ++ toString r.version ++ " sym=" ++ sym ++ " data=" ++ toString r.data.length ++ ":" ++
       Util.toHexPad 16 (fnv64 r.data).toNat ++ " " ++ metaStr r.md
 
+/-- answer of the `c13 acc` / `c13 kdacc` case lines: every accessor, in source order -/
+def accStr (m : Meta) : String :=
+  "vgpr=" ++ toString (workItemVgprCount m) ++ " sgpr=" ++ toString (wavefrontSgprCount m) ++
+  " prio=" ++ toString (priority m) ++ " wave=" ++ b01 (enPrivSegWaveByteOffset m) ++
+  " user=" ++ toString (userSgprCount m) ++ " wg=" ++ b01 (enWorkGroupIDX m) ++ b01 (enWorkGroupIDY m) ++
+  b01 (enWorkGroupIDZ m) ++ b01 (enWorkGroupInfo m) ++ " wi=" ++ toString (enVgprWorkItemID m) ++
+  " exc=" ++ b01 (enExceptionAddressWatch m) ++ b01 (enExceptionMemoryViolation m)
+
+def selStr : Sel → String
+  | .err .notFound => "err:notfound"
+  | .err .hiPastCap => "err:hi-past-cap"
+  | .err .loPastHi => "err:lo-past-hi"
+  | .ok s bytes =>
+    "ok sym=n:" ++ s.name ++ "," ++ Util.toHex s.value ++ "," ++ Util.toHex s.size ++ "," ++ toString s.shndx ++
+      " data=" ++ (if bytes.isEmpty then "e" else Util.bytesHex (bytes.map (·.toNat)))
+
+/-- `c13 sel`: the selection step of a load by (non-empty) name on a view with `.text` data and symbols -/
+def selOfView (v : View) (k : String) : String :=
+  match findSection v.sections ".text" with
+  | none => "nosel"
+  | some text =>
+    match text.data, v.symbols with
+    | some td, some syms => selStr (selectKernel v.sections text.addr td syms k)
+    | _, _ => "nosel"
+
 def unName (t : String) : String := (t.drop 2).toString
 
 def parseData (t : String) : Option Bytes :=
@@ -393,6 +492,15 @@ def handle (line : String) : String :=
       match parseV5KernelDescriptor? ((parseData h).getD []) with
       | none => "fault:bounds"
       | some m => metaStr m
+    | ["c13", "acc", h] =>
+      match parseV2V3Header? ((parseData h).getD []) with
+      | none => "fault:bounds"
+      | some m => accStr m
+    | ["c13", "kdacc", h] =>
+      match parseV5KernelDescriptor? ((parseData h).getD []) with
+      | none => "fault:bounds"
+      | some m => accStr m
+    | ["c13", "sel", n, sy] => selOfView (parseView rest (sy == "syms=1")) (unName n)
     | _ => "bad-op"
 
 end C13
